@@ -122,6 +122,11 @@ def run(ck, rng, tier):
     for i, (mt, o) in enumerate(zip(meta, outs)):
         if o is None:
             continue
+        nf_ = None if o.get("nonterminating") else vf.first_nonfinite(o)
+        if nf_:
+            # finite in-domain data: every stored result is a finite number (tolerance comparisons below are blind to NaN)
+            ck.fail("MLR", "not_finite", "the output `%s` holds NaN/Inf" % nf_, {"case": str(mt)[:3000]})
+            continue
         if mt[0] == "base":
             _, X, Y, Xnew, cond, noise, kind = mt
             n, m = X.shape
